@@ -221,12 +221,13 @@ where
 
   fn try_take_undecoded<'a>(
     is_reliable: bool,
+    my_guid: GUID,
     topic_cache: &'a TopicCache,
     latest_instant: Timestamp,
     last_read_sn: &'a BTreeMap<GUID, SequenceNumber>,
   ) -> Box<dyn Iterator<Item = (Timestamp, &'a CacheChange)> + 'a> {
     if is_reliable {
-      topic_cache.get_changes_in_range_reliable(last_read_sn)
+      topic_cache.get_changes_in_range_reliable(my_guid, last_read_sn)
     } else {
       topic_cache.get_changes_in_range_best_effort(latest_instant, Timestamp::now())
     }
@@ -375,7 +376,8 @@ where
     // loop in case we get a sample that should be ignored, so we try next.
     loop {
       let next_change =
-        Self::try_take_undecoded(is_reliable, &topic_cache, latest_instant, last_read_sn).next();
+        Self::try_take_undecoded(is_reliable, self.my_guid, &topic_cache, latest_instant, last_read_sn)
+          .next();
       let (timestamp, cc) = match next_change {
         None => {
           // no more data available right now
